@@ -7,6 +7,7 @@ from gosym.core import *
 from gosym.runner import Check, load_program
 from gosym import reldb, world, stdlib
 from gosym.stdlib import mkerr, new_context
+from gosym.core import PathAbort
 
 A = 'go.6river.tech/mmmbbb/actions.'
 CONN = A + 'httpPushStreamConn'
@@ -163,22 +164,36 @@ def receive_window(chk, prog):
         mm = z3.Int('max_messages')
         ex.assume(z3.And(mm >= 1, mm <= 1000))
         conn = mkconn(ex, maxm=mm)
-        which = ['fastAckQueue', 'slowAckQueue', 'nackQueue'][ex.choose(3)]
-        k = 1 + ex.choose(10 if chk.thorough else 4)
-        ids = [ex.fresh_uuid('id%d' % i) for i in range(k)]
-        ex.getf(conn, which).q.extend(ids)
+        QS = ['fastAckQueue', 'slowAckQueue', 'nackQueue']
+        KMAX = 10 if chk.thorough else 3
+        counts = [ex.choose(KMAX + 1) if q == 'fastAckQueue' or True else 0 for q in QS]
+        if sum(counts) == 0:
+            raise PathAbort('nothing to receive')
+        if not chk.thorough and sum(1 for x in counts if x) > 2 and max(counts) > 2:
+            raise PathAbort('quick tier: at most two busy queues beyond 2 entries')
+        ids = {q: [ex.fresh_uuid('%s%d' % (q[:4], i)) for i in range(n)] for q, n in zip(QS, counts)}
+        for q in QS:
+            ex.getf(conn, q).q.extend(ids[q])
         r, err = ex.call_named('(*' + CONN + ').Receive', [conn, new_context(ex)])
         ob.verify(ex, 'receive-succeeds', err is None)
         acks, nacks = ex.getf(r, 'Ack').items(), ex.getf(r, 'Nack').items()
-        d = lambda m: {'queue': which, 'ids': k, 'window_before': m.eval(mm, model_completion=True).as_long()}
+        left = {q: len(ex.getf(conn, q).q) for q in QS}
+        drained = [q for q in QS if left[q] != len(ids[q])]
+        d = lambda m: {'queued': dict(zip(QS, counts)), 'left': left, 'acks': len(acks), 'nacks': len(nacks), 'window_before': m.eval(mm, model_completion=True).as_long()}
+        ob.verify(ex, 'exactly-one-queue-is-drained-completely', len(drained) == 1 and left[drained[0]] == 0, d)
+        if len(drained) != 1:
+            return
+        which = drained[0]
+        k = len(ids[which])
+        got = nacks if which == 'nackQueue' else acks
+        other = acks if which == 'nackQueue' else nacks
+        ob.verify(ex, 'drained-ids-are-' + ('nacked' if which == 'nackQueue' else 'acked') + '-and-nothing-else',
+                  len(got) == k and len(other) == 0 and all(ex.eq(a, b) is True for a, b in zip(got, ids[which])), d)
         if which == 'nackQueue':
-            ob.verify(ex, 'drained-ids-are-nacked', len(nacks) == k and len(acks) == 0 and all(ex.eq(a, b) is True for a, b in zip(nacks, ids)), d)
             want = z3.If(mm > 1, z3.If(mm - 10 * k < 1, 1, mm - 10 * k), mm)
         elif which == 'slowAckQueue':
-            ob.verify(ex, 'drained-ids-are-acked', len(acks) == k and len(nacks) == 0 and all(ex.eq(a, b) is True for a, b in zip(acks, ids)), d)
             want = z3.If(mm > 1, z3.If(mm - k < 1, 1, mm - k), mm)
         else:
-            ob.verify(ex, 'drained-ids-are-acked', len(acks) == k and len(nacks) == 0 and all(ex.eq(a, b) is True for a, b in zip(acks, ids)), d)
             want = z3.If(mm < 1000, z3.If(mm + k > 1000, 1000, mm + k), mm)
         new = ex.getf(conn, 'maxMessages')
         ob.verify(ex, 'window-update-rule', ex.eq(new, want), d)
@@ -189,7 +204,61 @@ def receive_window(chk, prog):
             ob.verify(ex, 'flow-control-sent-when-window-changed', Not(changed), d)
         else:
             ob.verify(ex, 'flow-control-carries-the-new-window', And(ex.eq(ex.getf(fc, 'MaxMessages'), new), ex.eq(ex.getf(fc, 'MaxBytes'), 10_000_000)), d)
-    chk.run('receive:adaptive-window', prog, harness, bounds={'window': '1..1000 (symbolic)', 'queued responses': '1..%d' % (10 if chk.thorough else 4)}, max_paths=20000)
+    chk.run('receive:adaptive-window', prog, harness, bounds={'window': '1..1000 (symbolic)', 'queued responses': '0..%d in each of the three queues at once' % (10 if chk.thorough else 3)}, max_paths=20000)
+
+
+def auto_extend_ticker(chk, prog):
+    """the push streamer's deadline-extension goroutine (MessageStreamer.Go, AutomaticNack=false) starts for every stored retry policy
+    without crashing the process (time.NewTicker panics on a non-positive interval)"""
+    from gosym import world, replay
+    from gosym.core import GoPanic, PathAbort, Closure
+    fn = '(*' + A + 'MessageStreamer).Go$7'
+
+    def new_ticker(ex, args, name):
+        d = args[0]
+        if ex.branch(d <= 0) if is_sym(d) else d <= 0:
+            raise GoPanic('non-positive interval for NewTicker', name)
+        ch = Chan(1, name='timer')
+        t = ex.new_struct('time.Ticker', C=ch) if 'time.Ticker' in ex.prog.types else None
+        return ex.new_ptr(t) if t is not None else Opaque('ticker', C=ch)
+
+    class Stop(PathAbort):
+        pass
+
+    def harness(ex, ob):
+        db = reldb.sym_db(ex, prog, {'Topic': 1, 'Subscription': 1, 'Message': 0, 'Delivery': 0}, exists=True)
+        s = db.t['Subscription'][0]
+        # what the API lets a client store: CreateSubscription keeps a minimum backoff only if it is > 0; UpdateSubscription stores any value
+        ex.assume(And(s.isnull('deleted_at'), Or(s.isnull('min_backoff'), s.v['min_backoff'] > 0)))
+        client = reldb.make_client(ex, db)
+        ms = ex.new_ptr(ex.new_struct(A + 'MessageStreamer', Client=client, SubscriptionID=ex.new_ptr(s.v['id']), Logger=Opaque('logger')))
+
+        def select(ex_, states, blocking, t):
+            raise Stop('goroutine reached its wait loop')
+        ex.xp.select = select
+        d = lambda m: {'min_backoff_ns': None if replay.mval(m, zbool(s.isnull('min_backoff'))) is True else replay.mval(m, s.v['min_backoff'])}
+
+        def rp(m, desc):
+            rows = replay.rows_from_model(m, db.schema, db.t)
+            for r in rows['Subscription']:
+                r['push_endpoint'] = 'http://127.0.0.1:9/none'
+            scn = {'base_now': '2000000000000000000', 'rows': rows, 'ops': [{'op': 'http_push_go', 'subscription_id': rows['Subscription'][0]['id'], 'timeout_ms': 300}]}
+            out = replay.run_scenarios([scn])[0]
+            path = replay.save_scenario('C19', 'auto-extend-ticker', scn, desc)
+            if 'error' in out:
+                return ('panic:' in out['error'] or 'goroutine ' in out['error']), path
+            return ('panic' in out['results'][0]), path
+        try:
+            ex.call_value(Closure(fn, [ex.new_ptr(ms), ex.new_ptr(new_context(ex)), ex.new_ptr(ex.zero('sync.Mutex')), ex.new_ptr(MapObj())]), [])
+        except Stop:
+            ob.reached(ex)
+            return
+        except GoPanic as p:
+            ob.verify(ex, 'deadline-extension-goroutine-starts-without-panic', False, d, replay=rp)
+            return
+        ob.reached(ex)
+    chk.run('push-stream:deadline-extension-start', prog, harness, bounds={'min_backoff': 'absent or any stored value > 0'}, setup=world.setup,
+            intr={'time.NewTicker': new_ticker}, max_paths=1000)
 
 
 if __name__ == '__main__':
@@ -198,6 +267,7 @@ if __name__ == '__main__':
     chk.repo_hash = prog.repo_hash
     send_obligations(chk, prog)
     receive_window(chk, prog)
+    auto_extend_ticker(chk, prog)
     chk.assumptions += ['net/http, encoding/json, base64 and time formatting are opaque injective functions: the check decides which value flows into which envelope field, not the byte layout',
                         'the HTTP client returns an arbitrary status in 100..599 or a transport error after an arbitrary latency',
                         'acks/nacks continue through MessageStreamer (C03/C04/C06); the number of concurrent pushes is bounded by the window through flow control (C11)']
